@@ -1156,7 +1156,7 @@ class DomainMapping(CanBehaveLikeAVariable[T], ABC):
         # The truthiness of the mapped value only matters when this expression stands as a condition; as an operand,
         # argument or selected expression its value is passed on whatever it is.
         is_condition = self is self._conditions_root_ or isinstance(self._parent_, LogicalOperator)
-        child_val = self._child_._evaluate__(sources, yield_when_false=self._yield_when_false_)
+        child_val = self._child_._evaluate__(sources, yield_when_false=yield_when_false)
         for child_v in child_val:
             for v in self._apply_mapping_(child_v[self._child_._id_]):
                 values = copy(child_v)
@@ -1164,7 +1164,9 @@ class DomainMapping(CanBehaveLikeAVariable[T], ABC):
                     self._is_false_ = False
                 else:
                     self._is_false_ = True
-                if self._yield_when_false_ or not self._is_false_ or not is_condition:
+                # What this evaluation was asked for, not what the node was last asked for: the same expression may be
+                # evaluated again (as a selected output) while this evaluation is suspended.
+                if yield_when_false or not self._is_false_ or not is_condition:
                     values[self._id_] = v
                     yield values
 
